@@ -136,6 +136,11 @@ TWelcome ==
                                   ELSE ~ENABLED DeclineWelcome(R.c, R.w) /\ UNCHANGED vars
     /\ Post1
 
+TRestart ==
+    /\ R.op = "Restart"
+    /\ Restart(R.c)
+    /\ \A i \in DOMAIN R.posts : PostOK(cl', ev', ginfo', proc', msgs', R.c, R.posts[i].g, R.posts[i].post)
+
 TQuiesce ==
     /\ R.op = "Quiesce"
     /\ Quiesce
@@ -146,7 +151,7 @@ TraceInit == Init /\ l = 2
 TraceNext ==
     /\ l <= Len(Rec)
     /\ l' = l + 1
-    /\ \/ TMeta \/ TCreate \/ TCommit \/ TMerge \/ TClear \/ TSend \/ TLeave \/ TDeliver \/ TQuiesce \/ TWelcome
+    /\ \/ TMeta \/ TCreate \/ TCommit \/ TMerge \/ TClear \/ TSend \/ TLeave \/ TDeliver \/ TQuiesce \/ TWelcome \/ TRestart
 
 \* property invariants, evaluated by TLC in every state of every real trace
 InvC01 == hist.q => C01_Excused
